@@ -185,7 +185,7 @@ PROPS = {
         'technique': 'named-parameter threading lint + must-adopt / control-dependence checks',
     },
     'C14': {
-        'rules': [rule('G10'), rule('W3'), rule('W1'), rule('G0'), rule('G14'), rule('G21'), rule('X20'), rule('G22'), rule('G17', keep=['string-literal:'])],
+        'rules': [rule('G10'), rule('W3'), rule('W1'), rule('G0'), rule('G14'), rule('G21'), rule('X20'), rule('G22'), rule('G17', keep=['string-literal:']), rule('W6')],
         'explanation': 'Strict entries cannot succeed before end of input; bracket helpers demand both delimiters; no closing delimiter or '
                        'block-closing keyword is optional anywhere in the grammar (G10, G0); failures are mapped to Error::Parse '
                        'through the origin map of the parsed text and to Error::Preprocess with the path being read (W3), '
@@ -414,7 +414,7 @@ PROPS = {
         'technique': 'finite-state abstract interpretation of the body tokeniser (product with a lexical-context monitor) + error-payload and binding-shape lint on the macro resolver + named-parameter threading',
     },
     'C11': {
-        'rules': [rule('X14'), rule('X7'), rule('X10'), rule('X9')],
+        'rules': [rule('X14'), rule('X7'), rule('X10'), rule('X9'), rule('X13', keep=['expansion-table'])],
         'explanation': 'NARROW claim: the structural clauses of "the returned define table is exact". The table is seeded with the '
                        'predefined constants and then every caller-supplied entry unchanged; inside the loop it is written only by '
                        '`define (insert under the macro\'s own name of a Define built from that directive\'s name, formals and text), '
